@@ -15,6 +15,7 @@ type flowBuilder struct {
 	filterTree         internaltypes.FilterTreeI
 	flowReps           map[string]internaltypes.FlowRepI
 	foreignRoot        *EntryPoint
+	incorporating      map[string]bool // flows being incorporated right now
 	nodeBuilder        *graphNodeBuilder
 	processorManager   *processors.ProcessorManager
 	resourceManagement *resources.ResourceManagement
@@ -254,6 +255,17 @@ func (fb *flowBuilder) incorporateFlow(flowName string, targetFlowDir *FlowDirec
 	if !exists {
 		return fmt.Errorf("flow '%s' not found", flowName)
 	}
+
+	// a flow that (directly or through other flows) references itself would be
+	// incorporated without end
+	if flowName == targetFlowDir.flowName || fb.incorporating[flowName] {
+		return fmt.Errorf("circular flow reference detected - flow '%s'", flowName)
+	}
+	if fb.incorporating == nil {
+		fb.incorporating = make(map[string]bool)
+	}
+	fb.incorporating[flowName] = true
+	defer delete(fb.incorporating, flowName)
 
 	// build connections from the source flow and add all to target FlowDirection
 	connections := flowRep.GetFlow().GetFlowConnections(targetFlowDir.flowType)
